@@ -229,7 +229,15 @@ func TestVerif_C09_GlueTrace(t *testing.T) {
 				ops[i].nonce = gen.RandBytes(r, ns)
 			}
 		}
-		cls := gen.Pick(t, "secrets", "independent", "a-repeats-key", "b-repeats-key", "one-bit", "constant-bytes")
+		cls := gen.Pick(t, "secrets", "independent", "a-repeats-key", "b-repeats-key", "one-bit", "constant-bytes", "crafted-round-keys", "crafted-round-keys")
+		// keys whose key schedule has FOUR CONSECUTIVE round keys of our choosing (the schedule is invertible from any four consecutive
+		// words): all zero, all ones, or a mixture, at the start (rk0..3), in the middle or at the end (rk28..31) — what a sanity
+		// check or a comparison on round-key words would single out
+		craftAt := []int{3, 3, 4, 17, 31, 31}[gen.Uniform(t, "craft-at", 0, 5)]
+		var craftW [4]uint32
+		for i := range craftW {
+			craftW[i] = []uint32{0, 0, 0, 0xffffffff, uint32(r.Int63())}[gen.Uniform(t, fmt.Sprintf("craft-w%d", i), 0, 4)]
+		}
 		mk := func(which int) []glueSecret {
 			sec := make([]glueSecret, len(ops))
 			var first []byte
@@ -240,6 +248,9 @@ func TestVerif_C09_GlueTrace(t *testing.T) {
 				}
 				if (cls == "a-repeats-key" && which == 0) || (cls == "b-repeats-key" && which == 1) {
 					s.key = first
+				}
+				if cls == "crafted-round-keys" && which == 0 {
+					s.key = sm4ref.KeyForRoundKey(craftAt, craftW[3], [3]uint32{craftW[0], craftW[1], craftW[2]})
 				}
 				if cls == "constant-bytes" && which == 0 {
 					s.key = bytes.Repeat([]byte{[]byte{0, 0xff, 0x01, 0x80}[i%4]}, 16)
